@@ -21,9 +21,18 @@ from vmx import *
 import sys_pair as sp
 from sys_pair import T, NUSERS, OWNER, WL, zlit
 
-CAP = 65536
-DEFAULT_OFFSET = 600
-SECONDS_PER_ROUND = 6
+
+
+def _source_constants():
+    """MAX_OBSERVATIONS, DEFAULT_SAFE_PRICE_ROUNDS_OFFSET, SECONDS_PER_ROUND as the source has them now
+    (the same extraction that generates coq/Gen/Params.v, so harness, shadow and model agree)"""
+    import os, extract
+    a, _ = extract.file_consts(os.path.join(extract.REPO, "dex/pair/src/safe_price.rs"))
+    b, _ = extract.file_consts(os.path.join(extract.REPO, "dex/pair/src/safe_price_view.rs"))
+    return a["MAX_OBSERVATIONS"], b["DEFAULT_SAFE_PRICE_ROUNDS_OFFSET"], b["SECONDS_PER_ROUND"]
+
+
+CAP, DEFAULT_OFFSET, SECONDS_PER_ROUND = _source_constants()
 TOK_CODE = {v: k for k, v in T.items()}
 UPDATING = ("Add", "Remove", "SwapIn", "SwapOut", "SwapNoFee", "RemoveBuyBack")
 POOL_OPS = UPDATING + ("AddInitial", "SetFee", "SetFeeOn", "SetCollector", "SetState", "WlAdd", "WlRm", "Trust",
@@ -505,8 +514,9 @@ RING_PLANS = ["partial-small", "partial-1", "partial-2", "almost-full", "full", 
 
 
 def plan_size(rng, plan):
-    return {"partial-small": rng.randint(3, 60), "partial-1": 1, "partial-2": 2, "almost-full": CAP - 1, "full": CAP,
-            "wrap+1": CAP + 1, "wrap+2": CAP + 2, "wrap-mid": CAP + rng.randint(3, CAP - 3), "wrap-2n-1": 2 * CAP - 1,
+    return {"partial-small": rng.randint(3, max(3, min(60, CAP - 2))), "partial-1": 1, "partial-2": 2,
+            "almost-full": max(1, CAP - 1), "full": CAP, "wrap+1": CAP + 1, "wrap+2": CAP + 2,
+            "wrap-mid": CAP + rng.randint(3, max(3, CAP - 3)), "wrap-2n-1": 2 * CAP - 1,
             "wrap-2n": 2 * CAP, "wrap-2n+1": 2 * CAP + 1, "wrap-rand": CAP + rng.randint(1, 2 * CAP)}[plan]
 
 
